@@ -21,10 +21,13 @@ TIERS = {
     "quick": {"targets": 320, "runs": 600, "ref_seeds": [0, 1, 20260924, 4242], "fresh_checks": 6, "redo": 8, "min_budget": 24,
               "chunk": 12, "budget_s": 420, "torchlib": False},
     "thorough": {"targets": 4000, "runs": 24000, "ref_seeds": [0, 1, 2, 3, 7, 1234567, 20260924, 4294967295], "fresh_checks": 40,
-                 "redo": 250, "min_budget": 60, "chunk": 25, "budget_s": 3300, "torchlib": True, "per_family": 10, "ort_models": 200, "ort_per_file": 40, "external_families": 23, "composed_models": 100, "op_families": 200},
+                 "redo": 250, "min_budget": 60, "chunk": 25, "budget_s": 3300, "torchlib": True, "per_family": 10, "ort_models": 200, "ort_per_file": 40, "attention_models": 32, "external_families": 23, "composed_models": 100, "op_families": 200},
 }
 REF_PRE_SKEW = [0, 3, 5, 1, 2, 7, 11, 13]   # pre-import heap skew of the i-th reference environment
 PRE_SKEWS = [0, 0, 1, 2, 3, 5, 7, 11, 13, 101]
+# class of the injected callee exception (half plain RuntimeError; the others reach typed handlers)
+FAULT_EXCS = ["RuntimeError"] * 10 + ["ValueError", "TypeError", "KeyError", "IndexError", "AttributeError", "NotImplementedError",
+                                      "FileNotFoundError", "MemoryError", "AssertionError", "OSError"]
 GC_KNOBS = ["default", "default", "aggressive", "disabled", "collect_between"]
 SKEWS = [0, 0, 0, 64, 1000, 20000]
 
@@ -57,6 +60,10 @@ OBJECT_CONFIGS = [
     (1, "optimize", {"api": "ir_should_fold", "answer": "never"}),
     (1, "optimize", {"api": "ir_should_fold", "raise_at": 1}),
     (1, "optimize", {"api": "ir_should_fold", "raise_at": 3}),
+    (1, "optimize", {"api": "fw:torch_2_5:1"}),
+    (1, "optimize", {"api": "fw:torch_2_5:0"}),
+    (1, "optimize", {"api": "fw:torch_2_6:0"}),
+    (2, "optimize", {"api": "fw:torch_2_8:0"}),
     (4, "rewrite", {"rules": "default", "api": "pass"}),
     (3, "rewrite", {"rules": "default", "api": "proto"}),
     (2, "rewrite", {"rules": "default", "api": "ir"}),
@@ -78,10 +85,16 @@ OBJECT_CONFIGS = [
     (1, "convert", {"target": 20, "fallback": False, "api": "proto"}),
     (1, "convert", {"target": 25, "fallback": False, "api": "ir"}),
     (1, "convert", {"target": 13, "fallback": True, "api": "proto"}),
+    (1, "convert", {"target": 21, "fallback": False, "api": "fw:torch_2_5:1"}),
+    (1, "convert", {"target": 20, "fallback": False, "api": "fw:torch_2_6:0"}),
+    (1, "convert", {"target": 17, "fallback": False, "api": "fw:torch_2_6:0"}),
+    (1, "convert", {"target": 19, "fallback": False, "api": "fw:torch_2_9:0"}),
+    (1, "convert", {"target": 23, "fallback": False, "api": "fw:torch_2_9:0"}),
 ]
 
 
 FAMILY_AFFINITY = {
+    "gen:user_rules": "user:all",
     "gen:rms_norm": "fusion:_rms_normalization", "gen:layer_norm": "fusion:_layer_norm", "gen:gelu": "ort:gelu,erfgelu,bias_gelu",
     "gen:matmul_add": "group:matmul_add_to_gemm_rule,gemm_to_matmul_add_rule,collapse_slice_rule,cast_constant_of_shape_rule,slice_split_rule",
     "gen:pad_conv": "group:fuse_pad_into_conv_rule,normalize_pad_format_conv_rule,fuse_batchnorm_into_conv_rule,fuse_batchnorm_into_gemm_rule",
@@ -96,7 +109,9 @@ FAMILY_AFFINITY = {
 }
 
 
-FAMILY_AFFINITY_2 = {"gen:rms_norm": "ort:rms_normalization,softmax", "gen:fold_chain": None}
+FAMILY_AFFINITY_2 = {"gen:rms_norm": "ort:rms_normalization,softmax", "gen:fold_chain": None, "gen:user_rules": "user:commute"}
+FAMILY_AFFINITY_3 = {"gen:user_rules": [("rewrite", {"rules": "user:functions", "api": "apply"}), ("rewrite", {"rules": "user:all", "api": "ir"}),
+                                        ("rewrite", {"rules": "user:bad_pattern", "api": "apply"})]}
 
 
 def object_key(op: dict) -> str:
@@ -237,6 +252,21 @@ def gen_targets(seed: int, tier: dict, pools) -> list[dict]:
             cfgs.append((kind, params))
             for kind, params in cfgs:
                 add(with_id({"kind": kind, "model": m, "family": fam, **copy.deepcopy(params)}))
+    # attention family (generated scripts): mask / scale / head-size / bias variants through the ORT fusion chain
+    from dsim.c14 import genattention
+
+    att_off = rng.sub("variant-offset", "attention").below(64)
+    for i in range(tier.get("attention_models", 8)):
+        r = rng.sub("att", i)
+        m = genattention.gen(r.sub("gen"), member=i, offset=att_off)
+        m.pop("variant", None)
+        cfgs = [("rewrite", {"rules": "ortfuse:optimize_for_ort", "api": "apply"}),
+                ("rewrite", {"rules": "ortall:sdpa,mha,mha_scale,mha_bias,attention", "api": "apply", "pre_optimize": True}),
+                ("rewrite", {"rules": "ortfuse:fuse_xformers", "api": "apply", "pre_optimize": True})]
+        _, kind, params = r.weighted([(c, c[0]) for c in OBJECT_CONFIGS])
+        cfgs.append((kind, params))
+        for kind, params in cfgs:
+            add(with_id({"kind": kind, "model": m, "family": "gen:attention", **copy.deepcopy(params)}))
     script_slots = [x for x in pools.script_models if "/fusion/" in x[0]]
     rng.sub("scriptorder").shuffle(script_slots)
     script_slots = script_slots[:tier.get("script_models", 8)]
@@ -254,7 +284,9 @@ def gen_targets(seed: int, tier: dict, pools) -> list[dict]:
         else:
             m = pools.model_ref(r, family=r.choice(fams) if r.chance(0.6) else None)
         fam = m.pop("family", None) or m.get("path", "")
-        k = r.randint(3, 4) if fam in ("gen:rms_norm", "gen:fold_chain") else r.randint(2, 4) if fam.startswith("gen:") else r.randint(3, 5)
+        for kind, params in FAMILY_AFFINITY_3.get(fam, [])[:1 + r.below(3)]:
+            add(with_id({"kind": kind, "model": m, "family": fam, **copy.deepcopy(params)}))
+        k = r.randint(3, 4) if fam in ("gen:rms_norm", "gen:fold_chain", "gen:user_rules") else r.randint(2, 4) if fam.startswith("gen:") else r.randint(3, 5)
         if fam.startswith("gen:") and r.chance(0.35):
             # version conversion through a long-lived pass, to a target that is (or is not) the model's own version
             add(with_id({"kind": "convert", "model": m, "family": fam, "target": r.choice([18, 20, 23]), "fallback": False, "api": "pass"}))
@@ -918,6 +950,7 @@ def check(tier_name: str, seed: int, max_runs: int | None = None) -> int:
                 f = op.get("fault")
                 if f is not None:
                     rrec = ref[h0].get(op["id"]) or {}
+                    f["exc"] = FAULT_EXCS[int(f["frac"] * 10**6) % len(FAULT_EXCS)]
                     calls = rrec.get("calls") or 0
                     marks = rrec.get("marks") or []
                     if marks and f["frac"] < 0.6:
@@ -1054,6 +1087,7 @@ def check(tier_name: str, seed: int, max_runs: int | None = None) -> int:
         "run_environments": {"hash_seeds_distinct": len({r["env"]["hashseed"] for r in runs}),
                              "pre_import_heap_skews": dict(collections.Counter(str(r["env"].get("pre_skew")) for r in runs)),
                              "gc_knobs": dict(collections.Counter(r["env"]["gc"] for r in runs))},
+        "fault_exception_classes": dict(collections.Counter(op["fault"].get("exc", "?") for r in runs for op in r["ops"] if op.get("fault"))),
         "fault_aim": dict(collections.Counter(op["fault"].get("aim", "?") for r in runs for op in r["ops"] if op.get("fault"))),
         "reference_results": ref_evals, "seed_dependent_targets": len(seed_dep),
         "ops_executed": agg["ops"], "ops_checked_vs_reference": agg["checked"], "failing_targets_checked": agg["checked_failing_target"],
